@@ -28,8 +28,9 @@ static void vn_advance_ms(long ms)
 }
 
 /* ---- sockets ---- */
-#define VN_MAXSOCK 64
-#define VN_MAXDGRAM 4096
+#define VN_MAXSOCK 2048
+#define VN_MAXDGRAM 1024
+#define VN_INBOX 4
 #define VN_FD_BASE 1000
 
 typedef struct {
@@ -37,8 +38,8 @@ typedef struct {
   int                     type;
   struct sockaddr_storage peer;
   socklen_t               peer_len;
-  unsigned char           inbox[8][VN_MAXDGRAM];
-  size_t                  inbox_len[8];
+  unsigned char           inbox[VN_INBOX][VN_MAXDGRAM];
+  size_t                  inbox_len[VN_INBOX];
   int                     inbox_cnt;
 } vn_sock_t;
 
@@ -49,6 +50,7 @@ typedef struct {
 } vn_tx_t;
 
 static vn_sock_t vn_socks[VN_MAXSOCK];
+static int       vn_next_sock = 0;
 static vn_tx_t   vn_tx[256];
 static int       vn_tx_cnt   = 0;
 static int       vn_tx_taken = 0;
@@ -61,7 +63,8 @@ static void (*vn_on_tx)(int sock, const unsigned char *data, size_t len) = NULL;
 
 static void vn_reset(void)
 {
-  memset(vn_socks, 0, sizeof(vn_socks));
+  memset(vn_socks, 0, sizeof(vn_socks[0]) * (size_t)(vn_next_sock < VN_MAXSOCK ? vn_next_sock + 1 : VN_MAXSOCK));
+  vn_next_sock         = 0;
   vn_tx_cnt            = 0;
   vn_tx_taken          = 0;
   vn_fail_next_send    = 0;
@@ -69,20 +72,20 @@ static void vn_reset(void)
   vn_opened = vn_closed = 0;
 }
 
+/* descriptors are never reused within a case, so a late datagram can never reach a newer socket */
 static ares_socket_t vn_asocket(int domain, int type, int protocol, void *ud)
 {
-  int i;
+  int i = vn_next_sock;
   (void)domain;
   (void)protocol;
   (void)ud;
-  for (i = 0; i < VN_MAXSOCK; i++) {
-    if (!vn_socks[i].in_use) {
-      memset(&vn_socks[i], 0, sizeof(vn_socks[i]));
-      vn_socks[i].in_use = 1;
-      vn_socks[i].type   = type;
-      vn_opened++;
-      return VN_FD_BASE + i;
-    }
+  if (i < VN_MAXSOCK) {
+    vn_next_sock++;
+    memset(&vn_socks[i], 0, sizeof(vn_socks[i]));
+    vn_socks[i].in_use = 1;
+    vn_socks[i].type   = type;
+    vn_opened++;
+    return VN_FD_BASE + i;
   }
   errno = EMFILE;
   return ARES_SOCKET_BAD;
@@ -234,7 +237,7 @@ static vn_tx_t *vn_next_tx(void)
 static void vn_deliver(ares_channel_t *ch, int sock, const unsigned char *data, size_t len)
 {
   vn_sock_t *s = &vn_socks[sock];
-  if (!s->in_use || s->inbox_cnt >= 8 || len > VN_MAXDGRAM) {
+  if (!s->in_use || s->inbox_cnt >= VN_INBOX || len > VN_MAXDGRAM) {
     return;
   }
   memcpy(s->inbox[s->inbox_cnt], data, len);
